@@ -3,17 +3,23 @@ HANDLER = "C13"
 RULE = ("batches of 2..7 expressions (random + rule-directed, narrow per-batch width pool so that sub-terms are shared, later members built "
         "from earlier ones) fed in a random order to ONE Simplifier instance with a sparse cache and in reverse order to one with a dense cache; "
         "each result compared by reference with a fresh simplifier's result, with the re-simplified result, and as a tree with the cache-free "
-        "model; a 20 s watchdog per batch detects non-termination. distinct = distinct batches")
+        "model; then the extracted MEMOISING driver model (Model/SimplifyCache.v: work stack, persistent cache, get_fixed_point with pointer "
+        "updates) is run on the same two histories and its per-member results and its FINAL CACHE (every key -> value entry, read from both "
+        "instances through the cfg(patronus_verif) hook verif_cache_entries) must equal the implementation's (result key batch+cache; histories "
+        "whose cache exceeds 6000 tree nodes are compared on results only, key batch); a 20 s watchdog per batch detects non-termination. "
+        "distinct = distinct batches")
 ASSUMPTIONS = [
     "termination is OBSERVED under a watchdog, not proved (the full termination statement stays unproved; see Props/C13.v and DESIGN section 9)",
-    "cache transparency is compared on generated batches, not proved: the theorems are about the cache-free driver model",
+    "cache transparency is PROVED for the memoising driver model (cache as a finite map; calls that return); the two cache containers are abstracted to that "
+    "finite-map interface, their agreement (results and final contents) is compared on generated histories, not proved",
 ]
 MANIFEST = dict(
-    level_text=("Theorems C13_simp_idempotent_partial (results of the driver model are fixed points) and C13_simp_fuel_independent (the result is unique, "
-                "independent of fuel) in Coq; termination and cache transparency are NOT proved (stated as such): they are checked by running one "
-                "Simplifier instance (sparse and dense caches) over batches with shared sub-terms in random orders against fresh instances, the "
-                "cache-free model and a watchdog."),
-    level_note="Partial by design: proof covers idempotence/determinism of the model; termination and the memoising driver are tested only.",
+    level_text=("Theorems in Coq: C13_simp_idempotent_partial / C13_simp_fuel_independent (results of the cache-free driver model are fixed points and unique), "
+                "C13_cache_transparent, C13_history_transparent, C13_history_independent, C13_cached_idempotent (the memoising driver model of transform.rs/"
+                "meta.rs - work stack, persistent cache, re-queuing, get_fixed_point with pointer updates - returns, after ANY history with the same instance, "
+                "the cache-free result of the expression alone; invariant cache_inv holds for the empty cache and is preserved by every call). Termination "
+                "is NOT proved (stated as such; watchdog). Tie: results AND final cache contents of real sparse/dense instances against the extracted model."),
+    level_note="Partial: termination unproved (cache theorems are for calls that return); container difference (sparse/dense) tested, not proved.",
     category="proof",
 )
 
